@@ -112,6 +112,20 @@ func runEvScenario(sc evScenario) (pre, post [][]string, note string) {
 	allClosed := make(chan struct{})
 	pre = make([][]string, k)
 	post = make([][]string, k)
+	// the events themselves are kept and rendered once more when everything is over: an event (and the frame in it) belongs to the
+	// application from the moment it is delivered, whatever the node reads afterwards
+	preEv := make([][]gomavlib.Event, k)
+	postEv := make([][]gomavlib.Event, k)
+	defer func() {
+		for i := range pre {
+			for j := range pre[i] {
+				pre[i][j] = evString(preEv[i][j])
+			}
+			for j := range post[i] {
+				post[i][j] = evString(postEv[i][j])
+			}
+		}
+	}()
 	var mu sync.Mutex
 	closing := false
 	sentinels := 0
@@ -136,8 +150,10 @@ func runEvScenario(sc evScenario) (pre, post [][]string, note string) {
 			}
 			if closing {
 				post[i] = append(post[i], s)
+				postEv[i] = append(postEv[i], e)
 			} else {
 				pre[i] = append(pre[i], s)
+				preEv[i] = append(preEv[i], e)
 			}
 			if strings.HasPrefix(s, "C(") {
 				closesSeen++
@@ -266,14 +282,16 @@ func genC10(r *rngT, n int, tier string) {
 		var pre, post [][]string
 		var note string
 		if mode == "drain" && i%6 == 0 {
-			// the same over real sockets: one UDP or TCP server endpoint, one peer per stream
-			udp := i%12 == 0
-			pre, post, note = runEvNet(sc, udp)
-			if udp {
-				stat("c10-drain-udp-server")
-			} else {
-				stat("c10-drain-tcp-server")
+			// the same over real sockets: one UDP or TCP server endpoint with one peer per stream, or a UDP broadcast endpoint
+			// (one channel) with one peer on the same port number
+			kind := []string{"udp", "tcp", "bcast"}[(i/6)%3]
+			if kind == "bcast" {
+				sc.streams = sc.streams[:1]
+				streams = streams[:1]
+				k = 1
 			}
+			pre, post, note = runEvNet(sc, kind)
+			stat("c10-drain-" + kind)
 		} else {
 			pre, post, note = runEvScenario(sc)
 		}
